@@ -10,7 +10,7 @@ git diff -- include > $OUT/patch.diff
 echo "== build + suite with the change" >> $LOG
 cmake --build $WT/_build -j8 >> $LOG 2>&1 || { echo "BUILD FAILED" | tee -a $LOG; exit 1; }
 BIN=$(find $WT/_build -name boost_mqtt5-tests -type f | head -1)
-timeout 900 $BIN > $OUT/suite_with_change.log 2>&1; S=$?
+nice -n -10 timeout 900 $BIN > $OUT/suite_with_change.log 2>&1; S=$?
 tail -3 $OUT/suite_with_change.log >> $LOG
 echo "== demo with the change" >> $LOG
 g++ -std=c++17 -O1 -Wno-error -I$WT/include -I$WT/test/include $WT/_seed/demo.cpp -o $WT/_seed/demo_v -pthread >> $LOG 2>&1 || g++ -std=c++17 -O1 -Wno-error -I$WT/include -I$WT/test/include $WT/_seed/demo.cpp -o $WT/_seed/demo_v -lboost_unit_test_framework -pthread >> $LOG 2>&1
